@@ -15,7 +15,8 @@ RULE = (
     "qtilde q>q_A region) x test statistic {q, qtilde, q0} x base distribution {normal, clipped_normal} x "
     "backend. (q, q_A) are injected by patching get_test_stat / generate_asimov_data at test time; the "
     "real teststatistic -> distributions -> pvalues -> expected_pvalues code runs. Oracle: 50-digit "
-    "mpmath evaluation of the published formulae + ordering invariants + clipped-vs-unclipped identity. "
+    "mpmath evaluation of the published formulae + ordering invariants + clipped-vs-unclipped identity + "
+    "identity with a calculator instance that was used before for another (q, q_A). "
     "Non-trivial: qtilde with q>q_A, |q-q_A|<=4 ulp, a tail argument >8, or the clip active; distinct by "
     "(test_stat, base dist, backend, q, q_A)."
 )
@@ -78,13 +79,15 @@ def _args(q, qA, ts):
     return [(q + qA) / (2 * sA), (q - qA) / (2 * sA)]
 
 
-def _run_calc(pyhf, tl, case, base):
+def _run_calc(pyhf, tl, case, base, history=()):
+    """history: (q, q_A) pairs evaluated on the same calculator instance before the case's own pair"""
     from pyhf.infer import calculators
 
     calls = []
+    seq = [v for pair in list(history) + [(case["q"], case["qA"])] for v in pair]
 
     def stub_stat(poi, data, pdf, init_pars, par_bounds, fixed_params, return_fitted_pars=False):
-        v = [case["q"], case["qA"]][len(calls)]
+        v = seq[len(calls)]
         calls.append(v)
         out = tl.astensor(v)
         if return_fitted_pars:
@@ -102,6 +105,10 @@ def _run_calc(pyhf, tl, case, base):
             mock.patch.object(calculators, "generate_asimov_data", stub_asimov):
         calc = calculators.AsymptoticCalculator([1.0], object(), [1.0], [(0.0, 10.0)], [False],
                                                 test_stat=case["test_stat"], calc_base_dist=base)
+        for _ in history:
+            ts0 = calc.teststatistic(0.5)
+            sb0, b0 = calc.distributions(0.5)
+            calc.pvalues(ts0, sb0, b0)
         ts = calc.teststatistic(1.0)
         sb, b = calc.distributions(1.0)
         obs = calc.pvalues(ts, sb, b)
@@ -176,6 +183,12 @@ def run_case(case, ctx):
                         ctx.fail(f"{sig}/clipped_changes_unaffected_band_value", n=n, qA=qA)
                 else:
                     clip_active = True
+        # the same calculator instance used before for another (q, q_A): results must be identical
+        prior = (0.37 * qA + 0.5, 2.1 * qA + 0.3)
+        ts3, obs3, exp3, exp_ts3 = _run_calc(pyhf, tl, case, base, history=[prior])
+        if obs3 != obs or exp3 != exp or ts3 != ts:
+            if not all(a == b or (a != a and b != b) for a, b in zip(obs3 + sum(exp3, []), obs + sum(exp, []))):
+                ctx.fail(f"{sig}/results_depend_on_earlier_use_of_the_calculator/{base}", fresh=obs, reused=obs3, prior=list(prior))
         near = abs(q - qA) <= 8 * EPS * qA
         ctx.label(f"test_stat={ts_name}", f"base={base}", f"backend={case['backend']}", f"branch={branch}")
         if near:
